@@ -327,6 +327,12 @@ def rule_e(ctx):
         elif conds and conds[0].data['value'] is True and not closes:
             n_skip += 1
         elif conds and conds[0].data['value'] is False:
+            # the one legitimate way not to connect: the client was closed while the old connection was being closed -
+            # the listener finds that it is no longer the registered listener and ends
+            gone = [e for e in evs if e.kind == 'cond' and 'current_task' in repr(strip_epoch(e.data['key'])) and
+                    '_reconnect_task' in repr(strip_epoch(e.data['key']))]
+            if closes and gone and p.outcome == 'return':
+                continue
             ok, why = False, 'with no connect in progress the request is not acted upon'
     rep.add('C17.e', 'RSocketClient._reconnect_listener / one reconnect per request, none while one is in progress', f,
             ok and n_conn > 0 and n_skip > 0,
